@@ -580,6 +580,64 @@ def r10_asynchop_provenance(run):
               init.loc(), nontrivial=False)
 
 
+def r11_outstanding_is_the_callers(run):
+    run.rule("R11", "the set of outstanding requests a response is checked "
+             "against is the one the application passes to this call "
+             "(parameter `outstanding`): nothing the client object kept from "
+             "earlier calls is mixed into it, so a request the application no "
+             "longer lists is not solicited")
+    fi = run.model.func("client_base.Base.parse_authn_request_response")
+    fn = fi.node
+    vals = []
+    for x in ast.walk(fn):
+        if isinstance(x, ast.Dict):
+            for k, v in zip(x.keys, x.values):
+                if isinstance(k, ast.Constant) and k.value == "outstanding_queries":
+                    vals.append(v)
+        elif isinstance(x, ast.Assign):
+            for t in x.targets:
+                if isinstance(t, ast.Subscript) and \
+                        isinstance(t.slice, ast.Constant) and \
+                        t.slice.value == "outstanding_queries":
+                    vals.append(x.value)
+        elif isinstance(x, ast.Call):
+            for k in x.keywords:
+                if k.arg == "outstanding_queries":
+                    vals.append(k.value)
+    run.require(vals, "R11: parse_authn_request_response no longer passes "
+                "outstanding_queries")
+    params = set(fi.params())
+    assigns = {}
+    for x in ast.walk(fn):
+        if isinstance(x, ast.Assign):
+            for t in x.targets:
+                if isinstance(t, ast.Name):
+                    assigns.setdefault(t.id, []).append(x.value)
+    for v in vals:
+        roots, seen, todo = set(), set(), [v]
+        while todo:
+            e = todo.pop()
+            for n in ast.walk(e):
+                if isinstance(n, ast.Attribute):
+                    ch = attr_chain(n)
+                    if ch and ch.startswith("self."):
+                        roots.add(".".join(ch.split(".")[:2]))
+                elif isinstance(n, ast.Name) and n.id != "self":
+                    if n.id in assigns and n.id not in seen:
+                        seen.add(n.id)
+                        todo.extend(assigns[n.id])
+                    elif n.id in params:
+                        roots.add(n.id)
+        kept = sorted(r for r in roots if r.startswith("self."))
+        run.check(not kept and "outstanding" in roots, "R11",
+                  "%s::outstanding_queries" % fi.qual,
+                  "outstanding_queries = %s (the caller's)" % unparse(v),
+                  "outstanding_queries is built from %s: requests remembered "
+                  "by the client object from earlier calls count as "
+                  "outstanding although the application no longer lists them" %
+                  (kept or sorted(roots)), fi.loc(v))
+
+
 def check(run):
     run.explanation = (
         "C05: solicitation gate (flag-sensitive search under assumed test "
@@ -602,3 +660,4 @@ def check(run):
     r10_asynchop_provenance(run)
     from ..common_rules import misplaced_rule
     misplaced_rule(run, "R9", {"client_base", "response", "client"}, "response parsing")
+    r11_outstanding_is_the_callers(run)
